@@ -297,7 +297,7 @@ Spec == Init /\ [][Next]_vars
 \* hold with handlers that never release, a consumer that never reads and producers that never write.
 SchedFair == /\ WF_vars(Start) /\ SF_vars(TopStop) /\ WF_vars(TopAdd) /\ WF_vars(TopRemove) /\ WF_vars(TopFb) /\ WF_vars(TopDefault)
              /\ WF_vars(Calc) /\ WF_vars(FbOne) /\ WF_vars(OneStop) /\ SF_vars(Take) /\ WF_vars(Send) /\ SF_vars(SendStop)
-             /\ SF_vars(PollStop) /\ WF_vars(PollEmpty) /\ WF_vars(PollTick) /\ WF_vars(Drain) /\ WF_vars(Recalc) /\ WF_vars(RoundEnd)
+             /\ SF_vars(PollStop) /\ WF_vars(PollEmpty) /\ WF_vars(PollTick) /\ SF_vars(Drain) /\ WF_vars(Recalc) /\ WF_vars(RoundEnd)
              /\ WF_vars(Graceful) /\ WF_vars(FbLim) /\ SF_vars(LimStop) /\ WF_vars(LimDone) /\ WF_vars(FbFinal) /\ SF_vars(FinalStop) /\ WF_vars(Closing)
 StopSpec == Spec /\ SchedFair
 EnvFair == /\ WF_vars(Recv) /\ \A p \in Universe : WF_vars(Release(p))
